@@ -1,5 +1,5 @@
 import QV.Shared.SchedFrames
-import QV.C24.Spec
+import QV.C24.Props
 import QV.C25.Spec
 /-
 C25 — Computed schedules are as-soon-as-possible and frame-exclusive.  Property theorems only.
@@ -130,7 +130,8 @@ private theorem lookup_ends (items : List SItem) (p : Nat) (t : Int)
     split at h
     · rename_i heq
       simp only [Option.some.injEq] at h
-      exact ⟨x, List.mem_cons_self, by simpa using eq_comm.1 heq, h⟩
+      have hp : p = x.index := by simpa using heq
+      exact ⟨x, List.mem_cons_self, hp.symm, h⟩
     · obtain ⟨y, hy, a⟩ := ih h
       exact ⟨y, List.mem_cons_of_mem _ hy, a⟩
 
@@ -310,7 +311,7 @@ theorem C25_asap (L : Nat) (order : List Node) (es : List Edge) (dur : Nat → O
     obtain ⟨x, hx, h1⟩ := inv.covers i (hall i hi)
     exact ⟨x, (mem x).2 hx, h1⟩
   · intro x hx; exact inv.inRange x ((mem x).1 hx)
-  · rw [List.map_reverse]; exact List.nodup_reverse.2 inv.once
+  · rw [List.map_reverse]; exact (List.reverse_perm _).nodup_iff.2 inv.once
   · intro x hx; exact inv.durs x ((mem x).1 hx)
   · intro x hx; exact inv.nonneg x ((mem x).1 hx)
   · intro x hx e he hl hd
@@ -401,5 +402,119 @@ theorem C25_path_exclusive (L : Nat) (es : List Edge) (dur : Nat → Option Int)
         have := hd z hz
         simp only [SItem.stop] at *
         omega
+
+/-- **C25 (frame exclusivity), all blocks.** Take the graph the model of `build` produces for a block (under C24's
+hypotheses) and any schedule satisfying the ASAP specification for it with non-negative durations. Two timed
+instructions of which one uses a frame that the other uses or blocks do not overlap: the earlier ends before the
+later starts. -/
+theorem C25_frame_exclusive (b : Block) (es : List Edge) (hb : buildBlock b = .ok es) (hyp : C24.Hyp b)
+    (dur : Nat → Option Int) (items : List SItem) (D : Int) (hs : AsapSpec b.instrs.length es dur items D)
+    (hd : ∀ x ∈ items, 0 ≤ x.dur) :
+    ∀ x ∈ items, ∀ y ∈ items, x.index < y.index → ∀ p q, b.instrs[x.index]? = some p → b.instrs[y.index]? = some q →
+      p.scheduled = true → q.scheduled = true →
+      (∃ f k1 k2, (f, k1) ∈ frameAccesses p ∧ (f, k2) ∈ frameAccesses q ∧ Conflict k1 k2) → x.stop ≤ y.start := by
+  intro x hx y hy hlt p q hp hq hsp hsq ⟨f, k1, k2, h1, h2, hc⟩
+  have hspec := C24.C24_build_frameSpec b es hb hyp
+  have hf : ∀ e ∈ es, e.label = .scheduled → e.src.pos b.instrs.length < e.dst.pos b.instrs.length :=
+    fun e he hl => (hspec.schedJust e he hl).1
+  have hord := hspec.ordered
+  unfold Block.items at hord
+  have := pairwise_enumFrom_index b.instrs 0 (List.pairwise_append.1 hord).1 x.index y.index hlt p q hp hq
+    f k1 k2 h1 h2 hc
+  have hreach := this.2 hsp hsq
+  simp only [Nat.zero_add] at hreach
+  exact C25_path_exclusive b.instrs.length es dur items D hs hf hd hreach x hx y hy rfl rfl
+    (by intro h; injection h with h; omega)
+
+/-- `TimeSpan::union` is the hull of the two spans (for non-negative durations the result's duration is
+non-negative too). -/
+theorem C25_union_hull (a b : Int × Int) :
+    (spanUnion a b).1 = min a.1 b.1 ∧ (spanUnion a b).1 + (spanUnion a b).2 = max (a.1 + a.2) (b.1 + b.2) := by
+  simp only [spanUnion]
+  constructor
+  · split <;> omega
+  · split <;> split <;> omega
+
+/-- the documented durations (schedule.rs:174-180), as the model computes them -/
+theorem C25_durations :
+    instructionDuration .zero = some 0 ∧ instructionDuration .unknown = none ∧
+    (∀ d, instructionDuration (.literal d) = d) ∧
+    (∀ d pl pr rates, instructionDuration (.waveform none (some d) pl pr rates) = some (d + pl.getD 0 + pr.getD 0)) ∧
+    (∀ pl pr rates, instructionDuration (.waveform none none pl pr rates) = none) ∧
+    (∀ n d pl pr r rs, (∀ x ∈ rs, x = r) →
+      instructionDuration (.waveform (some n) d pl pr (some (r :: rs))) = some ((n : Int) * unitsPerSecond / r)) ∧
+    (∀ n d pl pr, instructionDuration (.waveform (some n) d pl pr none) = none ∧
+      instructionDuration (.waveform (some n) d pl pr (some [])) = none) := by
+  refine ⟨rfl, rfl, fun _ => rfl, fun _ _ _ _ => rfl, fun _ _ _ => rfl, ?_, fun _ _ _ _ => ⟨rfl, rfl⟩⟩
+  intro n d pl pr r rs hall
+  have : (rs.all fun x => decide (x = r)) = true := by simpa using hall
+  simp [instructionDuration, allEqualValue, this]
+
+/-! ### The Bool checkers -/
+
+theorem C25_asap_checker_sound (L : Nat) (es : List Edge) (dur : Nat → Option Int) (items : List SItem) (D : Int)
+    (h : asapB L es dur items D = true) : AsapSpec L es dur items D := by
+  simp only [asapB, Bool.and_eq_true, List.all_eq_true, List.any_eq_true, decide_eq_true_eq, Bool.or_eq_true,
+    Bool.not_eq_true', Bool.and_eq_false_iff, decide_eq_false_iff_not, List.mem_range] at h
+  obtain ⟨⟨⟨⟨⟨⟨⟨⟨h1, h2⟩, h3⟩, h4⟩, h5⟩, h6⟩, h7⟩, h8⟩, h9⟩ := h
+  refine ⟨?_, h2, h3, fun x hx => (h4 x hx).1, fun x hx => (h4 x hx).2, ?_, ?_, ⟨h7, ?_, h9⟩⟩
+  · intro i hi
+    obtain ⟨x, hx, hxi⟩ := h1 i hi
+    exact ⟨x, hx, hxi⟩
+  · intro x hx e he hl hdst
+    rcases h5 x hx e he with hneg | hpos
+    · rcases hneg with hneg | hneg
+      · exact absurd hl hneg
+      · exact absurd hdst hneg
+    · rcases hpos with hpos | ⟨y, hy, hsrc, hle⟩
+      · exact .inl hpos
+      · exact .inr ⟨y, hy, hsrc, hle⟩
+  · intro x hx
+    rcases h6 x hx with h0 | ⟨e, he, ⟨hl, hdst⟩, y, hy, hsrc, heq⟩
+    · exact .inl h0
+    · exact .inr ⟨e, he, hl, hdst, y, hy, hsrc, heq⟩
+  · exact h8.imp id fun ⟨x, hx, a⟩ => ⟨x, hx, a⟩
+
+theorem C25_exclusive_checker_sound (b : Block) (items : List SItem) (h : exclusiveB b items = true) :
+    Exclusive b items := by
+  intro x hx y hy hlt p q hp hq ⟨f, k1, k2, h1, h2, hc⟩
+  simp only [exclusiveB, List.all_eq_true] at h
+  have := h x hx y hy
+  rw [hp, hq] at this
+  simp only [Bool.or_eq_true, Bool.not_eq_true', decide_eq_false_iff_not, decide_eq_true_eq,
+    List.any_eq_false, Bool.and_eq_true, not_and, Bool.not_eq_true] at this
+  rcases this with hn | hn | hn
+  · exact absurd hlt hn
+  · exfalso
+    have := hn (f, k1) h1 (f, k2) h2 rfl
+    rcases hc with hc | hc <;> simp_all
+  · exact hn
+
+/-! ### Non-vacuity -/
+
+/-- two pulses on frame 0 (1 s and 0.5 s), a non-blocking pulse on frame 1 (2 s), a fence over both -/
+private def exBlock : Block :=
+  { instrs := [
+      ⟨.rf, true, false, [], [], [], some ([0], [])⟩,
+      ⟨.rf, true, false, [], [], [], some ([0], [])⟩,
+      ⟨.rf, true, false, [], [], [], some ([1], [])⟩,
+      ⟨.rf, true, false, [], [], [], some ([0, 1], [])⟩],
+    term := none }
+
+private def exDur : Nat → Option Int
+  | 0 => some 1024 | 1 => some 512 | 2 => some 2048 | 3 => some 0 | _ => none
+
+example : ∃ es, buildBlock exBlock = .ok es ∧
+    asSchedule 4 [.start, .instr 0, .instr 1, .instr 2, .instr 3, .stop] es exDur =
+      .ok [⟨0, 0, 1024⟩, ⟨1, 1024, 512⟩, ⟨2, 0, 2048⟩, ⟨3, 2048, 0⟩] 2048 ∧
+    -- another topological order gives the same times
+    asSchedule 4 [.instr 2, .start, .instr 0, .stop, .instr 1, .instr 3] es exDur =
+      .ok [⟨2, 0, 2048⟩, ⟨0, 0, 1024⟩, ⟨1, 1024, 512⟩, ⟨3, 2048, 0⟩] 2048 ∧
+    asapB 4 es exDur [⟨0, 0, 1024⟩, ⟨1, 1024, 512⟩, ⟨2, 0, 2048⟩, ⟨3, 2048, 0⟩] 2048 = true ∧
+    exclusiveB exBlock [⟨0, 0, 1024⟩, ⟨1, 1024, 512⟩, ⟨2, 0, 2048⟩, ⟨3, 2048, 0⟩] = true ∧
+    -- the checkers reject a late start and an overlap
+    asapB 4 es exDur [⟨0, 0, 1024⟩, ⟨1, 1536, 512⟩, ⟨2, 0, 2048⟩, ⟨3, 2048, 0⟩] 2048 = false ∧
+    exclusiveB exBlock [⟨0, 0, 1024⟩, ⟨1, 512, 512⟩, ⟨2, 0, 2048⟩, ⟨3, 2048, 0⟩] = false :=
+  ⟨_, rfl, by decide, by decide, by decide, by decide, by decide, by decide⟩
 
 end QV.C25
